@@ -58,6 +58,9 @@ pub enum Mode {
     AccCommitted { shape: Shape, acc: Value<Accumulator<S>> },
     /// a native before and after the accumulator: the row counter continues across types
     AccBetweenNatives { shape: Shape, acc: Value<Accumulator<S>>, before: Value<F>, after: Value<F> },
+    /// (used by C20) witness several accumulators, fold them with the in-circuit
+    /// `AssignedAccumulator::accumulate`, optionally collapse, expose the result
+    Fold { members: Vec<(Shape, Value<Accumulator<S>>)>, collapse: bool },
 }
 
 #[derive(Clone, Debug)]
@@ -128,6 +131,14 @@ impl Circuit<F> for VerifCircuit {
             Mode::AccCommitted { shape, acc } => {
                 let a = assign_acc(&mut layouter, shape, acc)?;
                 verifier.constrain_acc_as_public_input_with_committed_scalars(&mut layouter, &a)?;
+            }
+            Mode::Fold { members, collapse } => {
+                let accs = members.iter().map(|(shape, acc)| assign_acc(&mut layouter, shape, acc)).collect::<Result<Vec<_>, Error>>()?;
+                let mut folded = AssignedAccumulator::<S>::accumulate(&mut layouter, &verifier, &scalar_chip, &poseidon_chip, &accs)?;
+                if *collapse {
+                    folded.collapse(&mut layouter, &curve_chip, &scalar_chip)?;
+                }
+                verifier.constrain_as_public_input(&mut layouter, &folded)?;
             }
             Mode::AccBetweenNatives { shape, acc, before, after } => {
                 let b: midnight_circuits::types::AssignedNative<F> = scalar_chip.assign(&mut layouter, *before)?;
